@@ -26,5 +26,6 @@ PROP = dict(
         H(NP, "c03", "c03_geo4_all", "4 eligible candidates", tier="thorough", timeout=1800),
         H(NP, "c03", "c03_geo4_mixed", "4 candidates: one unsynchronised, one too uncertain", tier="thorough", timeout=1800),
         H(NP, "c03", "c03_geo4_periodic", "4 candidates, one periodic", tier="thorough", timeout=1800),
-    ],
+        H("np_algo_h", "cupd", "cupd_no_consensus", "update_clock without consensus: the clock is neither stepped nor steered, nothing is handed to it", timeout=600),
+],
 )
